@@ -15,20 +15,20 @@
    largest is on the cone and they fall on either side.                                        *)
 EXTENDS Integers, Sequences, TLC
 
-CONSTANTS Models, Lengths, Steps, Fractions, Factors, Moves,
+CONSTANTS Models, Lengths, Steps, Fractions, Factors, Moves, BothMoves, Energies,
           OffCone       \* angle indices a: theta = theta_c + 0.02 * a for |a| < 100; 100, 101, 102 stand for theta = 0, pi/2, pi
 
-VARIABLES model, n, step, frac, off,      \* fixed per behaviour: model, grid length, grid step index, (em, had) fractions, angle offset index
+VARIABLES model, n, step, frac, off, en,  \* fixed per behaviour: model, grid length, grid step index, (em, had) fractions, angle index, base energy index
           kR, sign, mg, mt, kE, zero,      \* current inputs relative to the base
           rel, last
-vars == <<model, n, step, frac, off, kR, sign, mg, mt, kE, zero, rel, last>>
+vars == <<model, n, step, frac, off, en, kR, sign, mg, mt, kE, zero, rel, last>>
 
-Init == /\ model \in Models /\ n \in Lengths /\ step \in Steps /\ frac \in Fractions /\ off \in OffCone
+Init == /\ model \in Models /\ n \in Lengths /\ step \in Steps /\ frac \in Fractions /\ off \in OffCone /\ en \in Energies
         /\ kR = 1 /\ sign = 1 /\ mg = 0 /\ mt = 0 /\ kE = 1 /\ zero = FALSE
         /\ rel = [num |-> 1, den |-> 1, shift |-> 0, zero |-> FALSE]
         /\ last = [op |-> "Init"]
 
-Fixed == UNCHANGED <<model, n, step, frac, off>>
+Fixed == UNCHANGED <<model, n, step, frac, off, en>>
 
 ScaleR(k) == /\ kR * k <= 8
              /\ kR' = kR * k /\ rel' = [rel EXCEPT !.den = @ * k]
@@ -37,11 +37,12 @@ ScaleR(k) == /\ kR * k <= 8
 FlipAngle == /\ sign' = 0 - sign /\ UNCHANGED rel
              /\ last' = [op |-> "FlipAngle"]
              /\ Fixed /\ UNCHANGED <<kR, mg, mt, kE, zero>>
-ShiftBoth(m) == /\ mg' = mg + m /\ mt' = mt + m /\ UNCHANGED rel
+ShiftBoth(m) == /\ mg + m <= 2000000 /\ mg + m >= -100
+                /\ mg' = mg + m /\ mt' = mt + m /\ UNCHANGED rel
                 /\ last' = [op |-> "ShiftBoth", m |-> m]
                 /\ Fixed /\ UNCHANGED <<kR, sign, kE, zero>>
 ShiftT0(m) == /\ mt' = mt + m /\ rel' = [rel EXCEPT !.shift = @ + m]
-              /\ (mt + m) - mg <= 12 /\ mg - (mt + m) <= 12          \* the pulse stays well inside the window
+              /\ (mt + m) - mg <= 140 /\ mg - (mt + m) <= 140        \* up to and beyond the edges of the window (relation holds on the overlap)
               /\ last' = [op |-> "ShiftT0", m |-> m]
               /\ Fixed /\ UNCHANGED <<kR, sign, mg, kE, zero>>
 (* proportional to the shower energy: electromagnetic shower viewed on the cone (exact for the parameterised models) *)
@@ -59,7 +60,7 @@ AngleScan == /\ last.op = "Init"
 
 Next == \/ \E k \in Factors : ScaleR(k)
         \/ FlipAngle
-        \/ \E m \in Moves : ShiftBoth(m)
+        \/ \E m \in BothMoves : ShiftBoth(m)
         \/ \E m \in Moves : ShiftT0(m)
         \/ \E k \in Factors : ScaleE(k)
         \/ \E how \in {"energy", "fractions"} : Zero(how)
